@@ -239,6 +239,8 @@ def replay_graph(ctx, res, n, sym, family, depth, nrandom, rdepth, budget=None):
     ne = w.cover_edges(stutter=True)
     npaths, complete = w.all_paths(depth, budget)
     nr = w.random_walks(nrandom, rdepth, ctx.seed)
+    from harness.graph import blind_walks
+    nb = blind_walks(w, max(nrandom // 2, 50), rdepth, ctx.seed)          # nothing read before the end of the walk
     ctx.stage(family, graph_states=len(g.state), graph_edges=g.n_edges, edges_replayed=ne,
               all_paths_depth=depth, paths=npaths, paths_complete=complete, random_walks=nr,
               random_depth=rdepth, real_calls=w.steps, duplicate_failures_suppressed=w.dups)
